@@ -86,6 +86,7 @@ FOREIGN = {
     "typing-special": "from typing import Any, Type, Iterable, NoReturn, Self, TypeAlias, Annotated, ClassVar, Never\n\nAlias: TypeAlias = int | str\n\n\nclass K:\n    def m(self) -> Self:\n        return self\n\n    def n(self, t: Type[int], i: Iterable[str], a: Annotated[int, \"meta\"], al: Alias) -> NoReturn:\n        raise ValueError\n\n\ndef f(t: type[K]) -> type:\n    ...\n",
 }
 MODCODE = {
+    "module-level-function-named-init": "def __init__(self, x: int = ..., y=...):\n    ...\n\n\ndef __new__(cls, a=1):\n    ...\n\n\ndef plain(a=...) -> int:\n    ...\n",
     "member-func-call": "import {pkg}.helpers as h\nimport {pkg}.helpers\n\nVALUE = h.helper_fun(1)\nOTHER = {pkg}.helpers.helper_fun(2)\n\n\ndef f() -> int:\n    return h.helper_fun(3)\n",
     "member-class-use": "import {pkg}.helpers as h\n\nINSTANCE = h.HelperCls()\n\n\ndef f(a: h.HelperCls) -> h.HelperCls:\n    return h.HelperCls()\n\n\nclass K(h.HelperCls):\n    pass\n",
     "member-const": "import {pkg}.helpers as h\n\nX = h.HELPER_CONST\n\n\ndef f(a: int = h.HELPER_CONST) -> int:\n    return h.HELPER_CONST\n",
@@ -160,6 +161,9 @@ def module_source(feat: list[str], pkg: str) -> dict:
         return {"m.py": MODCODE[k].replace("{pkg}", pkg)}
     if kind == "doc" and k.startswith("member-named-like-module-"):
         return {"gadget.py": _named_like(k.rsplit("-", 1)[1])}
+    if kind == "doc" and k.startswith("overload-only-in-package-file-"):
+        return {"__init__.py": 'from typing import overload\n\n\n@overload\ndef pick(a: int) -> int: ...\n\n\n@overload\ndef pick(a: str) -> str: ...\n',
+                "other.py": 'def run(a: int) -> int:\n    """Run doc."""\n    return a\n'}
     if kind == "doc" and k == "package-file-declarations-named-like-submodules-numpy":
         return {"__init__.py": '"""Package doc."""\n\n\ndef helper(a: int) -> int:\n    """Helper of the package file."""\n    return a\n\n\n'
                                'class widget:\n    """Widget of the package file."""\n\n    def wm(self, q: int) -> int:\n        """Wm doc."""\n        return q\n',
